@@ -152,8 +152,11 @@ def optz(v):
 
 
 def to_coq(c):
-    return "mk %s %s %s %s [%s] %s" % (ecode(c["expr"]), mode_coq(c["mode"]), vlib.zlist(c["obs"]), optz(c.get("err")),
-                                       "; ".join(vlib.zlist(a) for a in c.get("after", [])), vlib.blit(c.get("panic", False)))
+    return "mk %s %s %s %s [%s] [%s] %s" % (
+        ecode(c["expr"]), mode_coq(c["mode"]), vlib.zlist(c["obs"]), optz(c.get("err")),
+        "; ".join(vlib.zlist(a) for a in c.get("after", [])),
+        "; ".join("(%s, %s)" % (vlib.zlit(a), vlib.zlit(b)) for a, b in c.get("post", [])),
+        vlib.blit(c.get("panic", False)))
 
 
 # ---------------------------------------------------------------- pretty printing
@@ -221,7 +224,9 @@ def signature(c):
 def describe(c):
     return {"expression": pexpr(c["expr"]), "consumed_by": pmode(c["mode"]), "observed": c["obs"],
             "returned_error": c.get("err"), "sources_after": c.get("after"), "panicked": c.get("panic", False),
-            "why": c.get("why", ""), "required": "the list denotation of the expression (Iter/Model.v den); see ./check --replay"}
+            "why": c.get("why", ""),
+            "next_after_exhaustion": c.get("post", []),
+            "required": "the list denotation of the expression (Iter/Model.v den); see ./check --replay"}
 
 
 def sample(c):
